@@ -967,18 +967,32 @@ func convertKeepsStrings(c *core.Ctx) {
 		if !ok || len(res(r)) != 1 {
 			return
 		}
-		mi, ok := res(r)[0].(*ssa.MakeInterface)
-		if !ok {
-			return
+		// every value boxed for this return (directly, or on the edges of a result variable's phi)
+		var boxed []*ssa.MakeInterface
+		var gather func(v ssa.Value, d int)
+		gather = func(v ssa.Value, d int) {
+			switch x := v.(type) {
+			case *ssa.MakeInterface:
+				boxed = append(boxed, x)
+			case *ssa.Phi:
+				if d > 0 {
+					for _, e := range x.Edges {
+						gather(e, d-1)
+					}
+				}
+			}
 		}
-		b, ok := mi.X.Type().Underlying().(*types.Basic)
-		if !ok || b.Info()&types.IsString == 0 {
-			return
-		}
-		n++
-		if !whole(mi.X, 6) {
-			bad++
-			c.Bad("convert-keeps-strings@"+fname(f), r.Pos(), "convert returns a string that is not the plain string form of its argument (sliced, trimmed, replaced, concatenated): the value a controller reads is not the value that was set")
+		gather(res(r)[0], 4)
+		for _, mi := range boxed {
+			b, ok := mi.X.Type().Underlying().(*types.Basic)
+			if !ok || b.Info()&types.IsString == 0 {
+				continue
+			}
+			n++
+			if !whole(mi.X, 6) {
+				bad++
+				c.Bad("convert-keeps-strings@"+fname(f), r.Pos(), "convert returns a string that is not the plain string form of its argument (sliced, trimmed, replaced, concatenated): the value a controller reads is not the value that was set")
+			}
 		}
 	})
 	if n == 0 {
@@ -1078,8 +1092,8 @@ func signedFormatSignedConversion(c *core.Ctx) {
 		return ok && b.Info()&types.IsUnsigned != 0
 	}
 	var via ssa.Value
-	for _, r := range returnsInCase(blk, nil) {
-		for _, x := range res(r) {
+	for _, x := range caseResults(blk) {
+		{
 			walkOperands(x, 8, func(o ssa.Value) {
 				switch y := o.(type) {
 				case *ssa.Call:
